@@ -828,7 +828,20 @@ inline std::string genDeck(vh::Rng& r, std::map<std::string, long>& stats) {
             case 7: o << "WECON\n '" << wells[w] << "' " << fmtD(r.below(50)) << " 1* " << fmtD(0.8 + 0.19 * r.unit()) << " 2* '" << r.pick(std::vector<std::string>{"NONE", "CON", "WELL"}) << "' '" << (r.coin() ? "YES" : "NO") << "' /\n/\n"; break;
             case 8: o << "WEFAC\n '" << wells[w] << "' " << fmtD(0.5 + 0.5 * r.unit()) << " /\n/\n"; break;
             case 9: o << "GEFAC\n '" << r.pick(groups) << "' " << fmtD(0.5 + 0.5 * r.unit()) << " /\n/\n"; break;
-            case 10: o << "TUNING\n " << fmtD(0.1 + r.unit()) << " " << fmtD(10 + r.below(20)) << " /\n /\n " << r.range(5, 20) << " 1 " << r.range(20, 60) << " /\n"; break;
+            case 10: {
+                // every item of the three TUNING records independently entered or defaulted: the
+                // optional ones (TMAXWC, TRGSFT, …) carry a has_value flag that must travel on its own
+                auto rec = [&](const std::string& types) {
+                    std::string out; int last = -1; const int n = (int) types.size();
+                    std::vector<std::string> it(n);
+                    for (int i = 0; i < n; ++i) if (r.coin(1, 3)) { it[i] = types[i] == 'I' ? std::to_string(r.range(1, 40)) : fmtD(0.01 + r.unit() * (i == 0 ? 1.0 : 20.0)); last = i; }
+                    for (int i = 0; i <= last; ++i) out += " " + (it[i].empty() ? std::string("1*") : it[i]);
+                    return out + " /\n";
+                };
+                o << "TUNING\n" << rec("DDDDDDDDDD") << rec("DDDDDDDDDDDDI") << rec("IIIIIIDDDD");
+                stats["gen.tuning"]++;
+                break;
+            }
             case 11: o << "NUPCOL\n " << r.range(1, 12) << " /\n"; break;
             case 12: if (producer[w]) o << "WELTARG\n '" << wells[w] << "' '" << r.pick(std::vector<std::string>{"ORAT", "BHP", "LRAT"}) << "' " << fmtD(50 + r.below(4000)) << " /\n/\n"; break;
             case 13: o << "UDQ\n ASSIGN FU" << r.range(1, 3) << " " << fmtD(r.below(100)) << " /\n " << (r.coin() ? "DEFINE WU" + std::to_string(r.range(1, 2)) + " WOPR * " + fmtD(1 + r.below(5)) + " /\n" : std::string("UNITS FU1 SM3 /\n")) << "/\n"; haveUdq = true; stats["gen.udq"]++; break;
